@@ -156,8 +156,66 @@ def check_receiver_slot(ctx, sc):
         v['signature'] = 'lookup-receiver:' + v['signature']
 
 
+def check_stored_frames(ctx):
+    """Object level: the direction sets `set_wall_brdf` STORES for a wall are the reference set
+    carried by that wall's own frame (x -> up, y -> normal x up, z -> normal), unit length - also when
+    several walls share a normal but not the up vector (a floor made of two polygons) and are given
+    in ONE call, in any order, or one call per wall."""
+    sp = common.import_repo()
+    import pyfar as pf
+    rng = ctx.rng
+    lx, ly, lz = [float(x) for x in rng.integers(2, 4, size=3)]
+    walls = sp.testing.shoebox_room_stub(lx, ly, lz)
+    # replace the floor (wall with normal +z) by two coplanar halves with different up vectors
+    fl = [k for k, w in enumerate(walls) if np.allclose(w.normal, [0, 0, 1])][0]
+    h = lx / 2
+    a = np.array([[0, 0, 0], [h, 0, 0], [h, ly, 0], [0, ly, 0]], dtype=float)
+    b = a + np.array([h, 0, 0])
+    halves = [sp.geometry.Polygon(a, [1, 0, 0], [0, 0, 1]), sp.geometry.Polygon(b, [0, 1, 0], [0, 0, 1])]
+    room = [w for k, w in enumerate(walls) if k != fl] + halves
+    n_in, n_out = int(rng.integers(2, 6)), int(rng.integers(2, 6))
+
+    def dirs(n, seed):
+        az = np.arange(n) * 2 * np.pi / n + 0.3 + seed
+        col = 0.35 + 0.9 * np.abs(np.sin(1.3 * np.arange(n) + seed))
+        return pf.Coordinates.from_spherical_colatitude(az, np.clip(col, 0.05, 1.5), 0.5 + np.arange(n) % 3, weights=np.ones(n))
+    si, so = dirs(n_in, 0.0), dirs(n_out, 0.7)
+    data = rng.uniform(0, 0.3, size=(n_in, n_out, 1))
+    for style in ('one call', 'one call, shuffled', 'one call per wall'):
+        r = sp.DirectionalRadiosityFast.from_polygon(room, 1.0)
+        idx = np.arange(len(room))
+        if style == 'one call, shuffled':
+            idx = rng.permutation(len(room))
+        if style == 'one call per wall':
+            for w in idx:
+                r.set_wall_brdf([int(w)], pf.FrequencyData(data, [500.0]), si.copy(), so.copy())
+        else:
+            r.set_wall_brdf(idx, pf.FrequencyData(data, [500.0]), si.copy(), so.copy())
+        ctx.oracle_evals += 1
+        for w, poly in enumerate(room):
+            n = np.asarray(poly.normal, float)
+            n = n / np.linalg.norm(n)
+            u = np.asarray(poly.up_vector, float)
+            u = u / np.linalg.norm(u)
+            c = np.cross(n, u)
+            for label, ref, got in (('incoming', si, r._brdf_incoming_directions[w]), ('outgoing', so, r._brdf_outgoing_directions[w])):
+                v = np.asarray(ref.cartesian, float)
+                v = v / np.linalg.norm(v, axis=1, keepdims=True)
+                want = v[:, :1] * u[None, :] + v[:, 1:2] * c[None, :] + v[:, 2:3] * n[None, :]
+                have = np.asarray(got.cartesian, float)
+                if have.shape != want.shape or np.abs(have - want).max() > 1e-9:
+                    ctx.violation('stored-directions-not-in-wall-frame',
+                                  '%s: the %s directions stored for wall %d (normal %s, up %s) are not the reference set in that wall\'s frame' % (style, label, w, np.round(n, 3).tolist(), np.round(u, 3).tolist()),
+                                  {'room': [lx, ly, lz], 'style': style, 'wall': w, 'n_in': n_in, 'n_out': n_out}, have, want)
+                    return
+    ctx.cases += 1
+    ctx.count('stored_frames_rooms')
+
+
 def run(ctx):
     corr_frames(ctx, 30 if ctx.tier == 'quick' else 600)
+    for _ in range(1 if ctx.tier == 'quick' else 10):
+        check_stored_frames(ctx)
     n_s = 3 if ctx.tier == 'quick' else 20
     for k in range(n_s):
         sc = energy.gen_scene(ctx.rng, small=True, multi_dir=True)
@@ -180,6 +238,7 @@ def oracle(ctx, budget_s=60):
         sc = energy.gen_scene(ctx.rng, small=True, multi_dir=True)
         check_lookups(ctx, sc)
         check_receiver_slot(ctx, sc)
+        check_stored_frames(ctx)
 
 
 def replay(ctx, rp):
